@@ -4,6 +4,7 @@ import (
 	"bytes"
 	"crypto/cipher"
 	"hash"
+	"strconv"
 )
 
 // recording cipher suite: remembers the key material each direction is set up with
@@ -172,3 +173,59 @@ func zzStubHmacNew06(hf func() hash.Hash, key []byte) hash.Hash {
 	return &zzHmac{key: append([]byte{}, key...)}
 }
 func zzDummyHashNew() hash.Hash { return &zzHmac{} }
+
+// tagged recording HMAC for the TLS 1.0 PRF: the digest is an arbitrary function of (hash size,
+// key, message), so MD5-HMAC and SHA1-HMAC are different functions
+type zzHmacT struct {
+	size int
+	key  []byte
+	buf  []byte
+}
+
+func (h *zzHmacT) Write(p []byte) (int, error) { h.buf = append(h.buf, p...); return len(p), nil }
+func (h *zzHmacT) Reset()                      { h.buf = nil }
+func (h *zzHmacT) Size() int                   { return h.size }
+func (h *zzHmacT) BlockSize() int              { return 64 }
+func (h *zzHmacT) Sum(b []byte) []byte {
+	return append(b, vUFBytes("hmacT"+strconv.Itoa(h.size), h.size, h.key, zzPadTo(h.buf, 40))...)
+}
+func zzStubHmacNewT(hf func() hash.Hash, key []byte) hash.Hash {
+	return &zzHmacT{size: hf().Size(), key: append([]byte{}, key...)}
+}
+
+// H06-prf10: the TLS 1.0 / 1.1 PRF is P_MD5(S1, label || seed) XOR P_SHA1(S2, label || seed) with
+// S1 and S2 the two halves of the secret, sharing the middle byte when its length is odd
+// (RFC 2246, 5).
+//
+//verif:property C06
+//verif:expect-reach end
+//verif:bound secret of 3 or 4 symbolic bytes, label 2, seed 2 symbolic bytes, output lengths 1, 16, 20 and 21; HMAC-MD5 and HMAC-SHA1 arbitrary (distinct) functions of (key, message)
+//verif:outside HMAC, MD5 and SHA-1 themselves (standard library)
+//verif:stub-symbolic crypto/hmac.New zzStubHmacNewT
+func zzH_c06_prf10() {
+	sl := 3 + vChoice("secretLen", 2)
+	secret, label, seed := vBytes("secret", sl, sl), vBytes("label", 2, 2), vBytes("seed", 2, 2)
+	n := []int{1, 16, 20, 21}[vChoice("outLen", 4)]
+	out := make([]byte, n)
+	prf10(out, secret, label, seed)
+	ls := append(append([]byte{}, label...), seed...)
+	half := (sl + 1) / 2
+	s1, s2 := secret[:half], secret[sl-half:]
+	p := func(size int, key []byte) []byte {
+		mac := func(msg []byte) []byte { return vUFBytes("hmacT"+strconv.Itoa(size), size, key, zzPadTo(msg, 40)) }
+		a := mac(ls)
+		var w []byte
+		for len(w) < n {
+			w = append(w, mac(append(append([]byte{}, a...), ls...))...)
+			a = mac(a)
+		}
+		return w[:n]
+	}
+	pm, ps := p(16, s1), p(20, s2)
+	ok := true
+	for i := 0; i < n; i++ {
+		ok = ok && out[i] == pm[i]^ps[i]
+	}
+	vAssert("prf10-is-pmd5-xor-psha1-over-secret-halves", ok)
+	vReach("end")
+}
